@@ -214,3 +214,12 @@ pub fn sigma_chars(ev: Ev) -> Vec<String> {
     let _ = ev;
     a
 }
+
+/// sigma_class with the function representatives replaced by one given name, with and without its bracket
+pub fn sigma_class_with(ev: Ev, name: &str) -> Vec<String> {
+    let mut a = sigma_class(ev);
+    a.retain(|t| !["abs(", "pow(", "min(", "avg("].contains(&t.as_str()));
+    a.push(format!("{}(", name));
+    a.push(name.to_string());
+    a
+}
